@@ -15,6 +15,14 @@ Proof.
   - apply IH; assumption.
 Qed.
 
+Lemma NoDup_app_disj {A} (l1 l2 : list A) :
+  NoDup l1 -> NoDup l2 -> (forall x, In x l1 -> In x l2 -> False) -> NoDup (l1 ++ l2).
+Proof.
+  induction l1 as [|a l1 IH]; intros N1 N2 D; [exact N2|]. inversion N1 as [|? ? Hni N1']; subst. cbn [app]. constructor.
+  - intros HI. apply in_app_or in HI. destruct HI as [HI|HI]; [exact (Hni HI)|exact (D a (or_introl eq_refl) HI)].
+  - apply IH; [exact N1'|exact N2|]. intros x H1 H2. exact (D x (or_intror H1) H2).
+Qed.
+
 Lemma bval_eq rs cs r c e :
   bval rs cs r c e = if inblk rs (erow e) r && inblk cs (ecol e) c
                      then emat e (r - boff rs (erow e))%nat (c - boff cs (ecol e))%nat else 0.
@@ -92,7 +100,7 @@ Theorem ents_isometry_T ns cs (es : list bent) :
 Proof.
   intros NR NC Cov Hiso t t' Ht Ht'.
   rewrite (sumn_ext _ _ (fun c => dense cs ns (map tent es) c t * dense cs ns (map tent es) c t')).
-  2:{ intros c _. rewrite !dense_tent. reflexivity. }
+  2:{ intros c _. rewrite (dense_tent ns cs es t c), (dense_tent ns cs es t' c). reflexivity. }
   assert (M1 : map erow (map tent es) = map ecol es) by (rewrite map_map; apply map_ext; intros [[i j] M]; reflexivity).
   assert (M2 : map ecol (map tent es) = map erow es) by (rewrite map_map; apply map_ext; intros [[i j] M]; reflexivity).
   apply ents_isometry; [rewrite M1; exact NC|rewrite M2; exact NR|rewrite M2; exact Cov| |exact Ht|exact Ht'].
@@ -165,7 +173,7 @@ Proof.
   assert (C : map ecol (qr_complete_Q rs ps) = map p_i ps ++ qr_fill (length rs) (map p_i ps)).
   { unfold qr_complete_Q. rewrite map_app, pairs_L_cols, Px, map_map. f_equal. apply map_id. }
   assert (ND : NoDup (map p_i ps ++ qr_fill (length rs) (map p_i ps))).
-  { apply NoDup_app_intro; [exact NI|apply qr_fill_NoDup|]. intros q H1 H2. apply qr_fill_spec in H2. tauto. }
+  { apply NoDup_app_disj; [exact NI|apply qr_fill_NoDup|]. intros q H1 H2. apply qr_fill_spec in H2. tauto. }
   apply ents_isometry.
   - rewrite R. exact ND.
   - rewrite C. exact ND.
